@@ -197,6 +197,8 @@ class Shadow:
                     m[2] = [[f(1)] * m[1] for _ in range(m[0])]
             elif op == "l_init":
                 L[z(0)] = []
+            elif op == "l_new":
+                L[z(0)] = [[] for _ in range(z(1))]
             elif op == "l_del":
                 L[z(0)] = None
             elif op == "l_append":
@@ -522,7 +524,7 @@ def gen_history(rng, length, kinds):
         elif kind == "l":
             lv, em = live(sh.L), empty(sh.L)
             if (not lv or rng.random() < 0.1) and em:
-                t = ["l_init", rng.choice(em)]
+                t = ["l_init", rng.choice(em)] if rng.random() < 0.5 else ["l_new", rng.choice(em), rng.choice((0, 1, 2, 3, 3, 5, 6, 7))]
             elif lv and live(sh.D):
                 k = rng.choice(lv)
                 t = ["l_append", k, rng.choice(live(sh.D))] if rng.random() < 0.9 else ["l_del", k]
@@ -744,6 +746,10 @@ def run(ck, rng, tier):
         for q_, (keys_, op_) in enumerate(sets_):
             hs[6] += [["m_new", q_, len(keys_), 2]] + [["m_set", q_, r_, 0, keys_[r_]] for r_ in range(len(keys_))] + \
                      [["m_set", q_, r_, 1, float(r_)] for r_ in range(len(keys_))] + [[op_, q_, 0], ["m_get", q_, 0, 1]]
+    if len(hs) > 7:
+        # lists created with a size that is not a power of two, then appended to
+        hs[7] = [["dv_new", 0, 2], ["dv_set", 0, 1, 2.5], ["l_new", 0, 3], ["l_append", 0, 0], ["l_append", 0, 0], ["l_new", 1, 5], ["l_append", 1, 0],
+                 ["l_new", 2, 6], ["l_append", 2, 0], ["l_append", 2, 0], ["l_append", 2, 0], ["l_del", 0], ["l_del", 1], ["l_del", 2]]
     if len(hs) > 5:
         # texts made of white space only (one blank, a tab, several), the empty text, padded text
         hs[5] = [["s_init", 0], ["s_split", 0, "_a;b_", ";"], ["s_split", 0, "_", ";"], ["s_split", 0, "~", "_;"], ["s_split", 0, "___", ";"], ["s_split", 0, "@", ";"],
